@@ -101,6 +101,20 @@ def cases(rng, tier):
         allp = [list(p_) for p_ in itertools.permutations(idx)]
         for start in range(0, len(allp), 8):
             yield {"op": "C14.infer", "tag": "late-summand", "src": prog, "funcs": [], "perms": allp[start:start + 8]}
+    # one variable gets an ARRAY kind from two sources, real and complex (table entries that are arrays must still be
+    # refined): every order
+    arr_small = [
+        [["p1", ["callassign", ["w"], "<func>ar", [R], []]], ["p1", ["callassign", ["s", "w"], "<func>two", [R], []]],
+         ["p1", ["assign", "u", None, ["v", "w"], []]]],
+        [["p1", ["callassign", ["w"], "<builtin>array", [["c", 3]], []]], ["p1", ["assign", "w", ["c", 0], Z, []]],
+         ["p1", ["assign", "u", None, ["*", [["v", "w"], R]], []]]],
+        [["p0", ["callassign", ["<p>w"], "<func>ar", [R], []]], ["p1", ["callassign", ["s", "<p>w"], "<func>two", [R], []]],
+         ["p1", ["assign", "n2", None, ["call", "<builtin>norm_2", [["v", "<p>w"]], []], []]]],
+        [["p1", ["callassign", ["w"], "<func>ar", [R], []]], ["p1", ["assign", "w", None, ["*", [["v", "w"], Z]], []]]],
+    ]
+    for prog in arr_small:
+        allp = [list(p_) for p_ in itertools.permutations(range(len(prog)))]
+        yield {"op": "C14.infer", "tag": "array-kind-from-two-sources", "src": prog, "funcs": kc.USER_FUNCS, "perms": allp}
     n = 400 if tier == "quick" else 8000
     for i in range(n):
         prog = kc.rand_program(rng)
